@@ -71,6 +71,7 @@ def cmdImports (j : Json) : Except String Json := do
 def cmdCache (j : Json) : Except String Json := do
   let scope : PatchScope := match (getStr j "scope").toOption.getD "get_code" with
     | "exec_module" => .execModule
+    | "get_code_if_writing" => .getCodeIfWriting
     | _ => .getCode
   let runs ← (← getArr j "runs").mapM fun r => do
     let vs ← (← r.getObjVal? "versions").getObj?
@@ -79,7 +80,8 @@ def cmdCache (j : Json) : Except String Json := do
       let hw := match getOpt l "hooked" with | some (.str s) => some s | _ => none
       let ins := match getOpt l "inside" with | some (.str s) => some s | _ => none
       return ({ name := ← getStr l "name", hookedWith := hw, insideHooked := ins } : Load)
-    return ((fun n => (vlist.lookup n).getD 0), loads)
+    let writes := match getOpt r "writes" with | some (.bool b) => b | _ => true
+    return ({ versions := fun n => (vlist.lookup n).getD 0, writes := writes, loads := loads } : Run)
   let (_, outs) := runHistory scope [] runs
   return jarr (outs.map fun o => jarr (o.map fun (n, c) =>
     jarr [jstr n, jnat c.version, match c.instr with | none => Json.null | some k => jstr k]))
